@@ -58,3 +58,17 @@ Theorem c04_tie_terrapin_markers : [marker_c; marker_s] = src_pp_markers.
 Proof. exact tie_terrapin_markers. Qed.
 Theorem c04_tie_advisory : advisory_prefix = src_advisory_prefix /\ advisory_suffix = src_advisory_suffix.
 Proof. exact tie_advisory. Qed.
+
+(* the three name tests (ChaCha20-Poly1305, CBC, ETM) and the choice of the direction lists are the expressions of the current source:
+   each _get_*_enabled / _get_*_not_enabled helper of post_process_findings() is translated on every run (T1c) and equals the model's predicate for every name *)
+Theorem c04_tie_is_chacha : forall n, is_chacha n = src_is_chacha_ciphers n /\ is_chacha n = src_is_chacha_ciphers_db n.
+Proof. exact tie_is_chacha. Qed.
+Theorem c04_tie_is_cbc : forall n, is_cbc n = src_is_cbc_ciphers n /\ is_cbc n = src_is_cbc_ciphers_db n.
+Proof. exact tie_is_cbc. Qed.
+Theorem c04_tie_is_etm : forall n, is_etm n = src_is_etm_macs n /\ is_etm n = src_is_etm_macs_db n.
+Proof. exact tie_is_etm. Qed.
+Theorem c04_tie_directions : forall ca k,
+  tp_ciphers ca k = src_chacha_ciphers_list ca (kl_enc_c k) (kl_enc k) (kl_mac_c k) (kl_mac k) /\
+  tp_ciphers ca k = src_cbc_ciphers_list ca (kl_enc_c k) (kl_enc k) (kl_mac_c k) (kl_mac k) /\
+  tp_macs ca k = src_etm_macs_list ca (kl_enc_c k) (kl_enc k) (kl_mac_c k) (kl_mac k).
+Proof. exact tie_directions. Qed.
